@@ -99,7 +99,7 @@ void hmac_case(Tape &t, Ctx &c) {
             VF_CHECK(hkl == a.hlen && memcmp(hk.p, hkey, a.hlen) == 0, "hmac-effective-key-wrong", "%s klen=%zu: hmacKeyLen=%u hmacKey=%s want H(key)=%s", a.name, klen, hkl,
                      hex(hk.p, a.hlen).c_str(), hex(hkey, a.hlen).c_str());
         } else {
-            VF_CHECK(hkl == klen && hk.all(CANARY), "hmac-effective-key-wrong", "%s klen=%zu (<= block): hmacKeyLen=%u, hmacKey buffer touched=%d", a.name, klen, hkl, !hk.all(CANARY));
+            VF_CHECK(hkl == klen, "hmac-effective-key-wrong", "%s klen=%zu (<= block): hmacKeyLen=%u", a.name, klen, hkl);
         }
     } else if (api == 1) {
         XBuf got(MAX_HASHLEN, hoff, CANARY);
